@@ -237,6 +237,12 @@ Definition register_dacs (dc : N -> dac_st) (name : N) (aff : list (N * list (N 
   fold_left (fun dc dw => upd dc (fst dw) {| d_wins := upsert name (snd dw) (d_wins (dc (fst dw)));
                                              d_armed := d_armed (dc (fst dw)) |}) aff dc.
 
+Definition awg_remove (a : awg_st) (name : N) : awg_st :=     (* awg.arm(None); awg.remove(name) *)
+  {| a_progs := remove_key name (a_progs a); a_armed := None |}.
+Definition dac_delete (d : dac_st) (name : N) : dac_st :=     (* DummyDAC.delete_program(name) *)
+  {| d_wins := remove_key name (d_wins d);
+     d_armed := match d_armed d with Some n => if N.eqb n name then None else Some n | None => None end |}.
+
 (* `awg_order` : the order in which the dict awgs_to_channel_info is iterated.  It depends on the iteration order of
    Python sets of _SingleChannel (hash of id(awg)), which is outside the model; the harness observes it and the model
    only accepts an order that is a duplicate-free enumeration of the dict's keys. *)
@@ -253,26 +259,31 @@ Definition register_program (dm : dims) (st : state) (name : N) (p : prog) (cb :
         | None => (st, Some EIndexError)
         | Some infos =>
             if negb (same_setN awg_order (keys infos)) then (st, Some EBadHint)
+            else if has_key name (regs st) && negb update then (st, Some EOverwrite)
             else
               let (aw, ok) := upload_all (awg_of st) name (p_tag p) update infos awg_order in
               if negb ok then
                 ({| chmap := chmap st; mmap := mmap st; regs := regs st; awg_of := aw; dac_of := dac_of st;
                     cblog := cblog st |}, Some EOverwrite)
               else
+                let dc := register_dacs (dac_of st) name aff in
+                (* re-registration: devices of the old registration that dropped out forget the name *)
+                let old_awgs := match lookup name (regs st) with Some r => r_awgs r | None => [] end in
+                let old_dacs := match lookup name (regs st) with Some r => r_dacs r | None => [] end in
                 ({| chmap := chmap st; mmap := mmap st;
                     regs := upsert name {| r_tag := p_tag p; r_chans := p_chans p; r_meas := p_meas p; r_cb := cbt;
                                            r_awgs := awg_order; r_dacs := keys aff |} (regs st);
-                    awg_of := aw; dac_of := register_dacs (dac_of st) name aff; cblog := cblog st |}, None)
+                    awg_of := fold_left (fun aw a => if memN a awg_order then aw else upd aw a (awg_remove (aw a) name))
+                                        old_awgs aw;
+                    dac_of := fold_left (fun dc d => if memN d (keys aff) then dc else upd dc d (dac_delete (dc d) name))
+                                        old_dacs dc;
+                    cblog := cblog st |}, None)
         end
   end.
 
 (* ---------------------------------------------------------------------------------------------------------------- *)
 (* remove_program / clear_programs / arm_program / run_program *)
 
-Definition awg_remove (a : awg_st) (name : N) : awg_st :=     (* awg.arm(None); awg.remove(name) *)
-  {| a_progs := remove_key name (a_progs a); a_armed := None |}.
-Definition dac_delete (d : dac_st) (name : N) : dac_st :=     (* dac.delete_program(name) *)
-  {| d_wins := remove_key name (d_wins d); d_armed := d_armed d |}.
 
 Definition remove_program (st : state) (name : N) : state * option err :=
   match lookup name (regs st) with
@@ -289,7 +300,7 @@ Definition known_dacs (mm : list (N * list mask)) : list N := flat_map (fun kv =
 
 Definition clear_programs (st : state) : state * option err :=
   ({| chmap := chmap st; mmap := mmap st; regs := [];
-      awg_of := fold_left (fun aw a => upd aw a {| a_progs := []; a_armed := a_armed (aw a) |})   (* DummyAWG.clear keeps _armed *)
+      awg_of := fold_left (fun aw a => upd aw a {| a_progs := []; a_armed := None |})   (* DummyAWG.clear *)
                           (known_awgs (chmap st)) (awg_of st);
       dac_of := fold_left (fun dc d => upd dc d {| d_wins := []; d_armed := None |}) (known_dacs (mmap st)) (dac_of st);
       cblog := cblog st |}, None).
